@@ -206,7 +206,7 @@ func runC13(c *Ctx) {
 			c.Check(ok, "C13.2-accept-paths", FuncName(top)+"|CreateSpaceStorage", p.Pos(InstrPos(cs.Instr)), "space storage is created only by spaceService.createSpaceStorage (validated) or the local migrator")
 		}
 		c.Min("C13.2-accept-paths", 2)
-		c.RequireGate("C13.2-accept-paths", create, GErrNil("ValidateSpaceStorageCreatePayload()==nil", CalleeFn(vall)), CallSinks(create, css, false), "CreateSpaceStorage")
+		c.RequireGate("C13.2-accept-paths", create, GErrNil("ValidateSpaceStorageCreatePayload()==nil", CalleeFn(vall)), CallSinksX(create, css, false), "CreateSpaceStorage")
 		for _, cs := range CallSinks(create, CalleeFn(vall), false) {
 			ok := originatesFromParam(cs.(*ssa.Call).Call.Args[0], create.Params[2])
 			c.Check(ok, "C13.2-accept-paths", FuncName(create)+"|validates the payload it stores", p.Pos(InstrPos(cs)), "the payload validated is the payload stored")
@@ -220,6 +220,7 @@ func runC13(c *Ctx) {
 		ok := false
 		det := "the two branches of one bytes.Compare(a, b) test append (a‖b) and (b‖a)"
 		nIf := 0
+		cmpBranch, sameOrder := false, false
 		Instrs(bsc, func(in ssa.Instruction) {
 			iff, isIf := in.(*ssa.If)
 			if !isIf {
@@ -253,8 +254,44 @@ func runC13(c *Ctx) {
 			if o1 != "" && o2 != "" && o1 != o2 {
 				ok = true
 			}
+			if o1 != "" && o1 == o2 {
+				sameOrder = true // both outcomes of the comparison append the same order: not sorted
+			}
+			cmpBranch = true
 		})
-		c.Check(ok && nIf == 1, "C13.3-sorted-context", FuncName(bsc), p.Pos(bsc.Pos()), det)
+		// second recognised shape: `first, second := a, b; if Compare(a,b) > 0 { first, second = b, a }`
+		// — one append(first, second...) whose operands are phis that swap the two parameters
+		if !ok && cmpBranch {
+			Instrs(bsc, func(in ssa.Instruction) {
+				call, isCall := in.(*ssa.Call)
+				if !isCall {
+					return
+				}
+				bi, isB := call.Call.Value.(*ssa.Builtin)
+				if !isB || bi.Name() != "append" || len(call.Call.Args) != 2 {
+					return
+				}
+				x, okx := call.Call.Args[0].(*ssa.Phi)
+				y, oky := call.Call.Args[1].(*ssa.Phi)
+				if !okx || !oky || x.Block() != y.Block() || len(x.Edges) != 2 {
+					return
+				}
+				pa, pb := ssa.Value(bsc.Params[0]), ssa.Value(bsc.Params[1])
+				swapped := (x.Edges[0] == pa && y.Edges[0] == pb && x.Edges[1] == pb && y.Edges[1] == pa) ||
+					(x.Edges[0] == pb && y.Edges[0] == pa && x.Edges[1] == pa && y.Edges[1] == pb)
+				if swapped {
+					ok = true
+					det = "one bytes.Compare(a, b) test selects (first, second) = (a, b) or (b, a) for a single append"
+				}
+			})
+		}
+		if !ok && cmpBranch && nIf == 1 && !sameOrder {
+			// ordered by one Compare test, but in a shape this rule does not interpret: not decided
+			c.Hold("C13.3-sorted-context", FuncName(bsc), p.Pos(bsc.Pos()), "the context is ordered by a bytes.Compare(a, b) test; the shape of the two orders is not recognised: clause not decided")
+			c.Note("C13.3: buildSortedContext shape not recognised; not decided")
+		} else {
+			c.Check(ok && nIf == 1, "C13.3-sorted-context", FuncName(bsc), p.Pos(bsc.Pos()), det)
+		}
 		gsk := p.Func("util/crypto:GenerateSharedKey")
 		c.Check(ContainsCall(gsk, CalleeFn(bsc)), "C13.3-sorted-context", FuncName(gsk)+"|context via buildSortedContext", p.Pos(gsk.Pos()), "the shared-key derivation context is built by buildSortedContext from both public keys")
 	}
